@@ -1,5 +1,6 @@
 (* Model/SerCodeRef.v — property C12: the reference translation of internal/serialization/serialization.go
-   (definedContainerKey, internalMarshal, GenericRegister, resolvePointerNum, containerType): what tools/go2v (extractor "sercode") emits
+   (definedContainerKey, internalMarshal, GenericRegister, resolvePointerNum, containerType, internalUnmarshal) and of
+   the registration / record tables of internal/serialization and compose: what tools/go2v (extractor "sercode") emits
    as Gen/SerCode.v for the source the model was written against, kept under version control.  It is
    what Gen/SerCode.v re-exports when the extractor does not recognise the shape of the source
    (translator tie unavailable), so that Proofs/GenAgreeSer.v is one proof script for both cases; and
@@ -194,7 +195,7 @@ Definition resolvePointerNum (pointerNum : nat) (t_ : ty) :=
     t_
     end.
 
-Definition containerType (J JK : Type) (jenc : base -> lit -> res J) (kenc : base -> lit -> res JK) (reg : registry) (env : senv) (v : gis J JK) (t_ : ty) :=
+Definition containerType (J JK : Type) (reg : registry) (v : gis J JK) (t_ : ty) :=
     if (String.eqb (ContainerType v) ""%string) then
       Ok t_
     else
@@ -207,3 +208,228 @@ Definition containerType (J JK : Type) (jenc : base -> lit -> res J) (kenc : bas
     Ok ct
     end.
 
+Definition internalUnmarshal (J JK : Type) (jdec : base -> J -> res lit) (kdec : base -> JK -> res lit) (reg : registry) (env : senv) (self : option (gis J JK) -> res (option val)) (v_opt : option (gis J JK)) : res (option val) :=
+    match v_opt with
+    | None => Ok None
+    | Some v =>
+    if (negb (String.eqb (Type_ v) ""%string)) then
+      match m_lookup reg (Type_ v) with
+      | None => Err E_UNKNOWN_TYPE
+      | Some t_ =>
+      let pResult := (pc_new (resolvePointerNum (PointerNum v) t_)) in
+      match loop_range_while (fun pResult => (kind_eqb (rt_Kind (pc_cur_ty pResult)) KPtr)) (fun i pResult =>
+          let pResult := pc_set_new pResult in
+          let pResult := pc_down pResult in
+          LCont pResult) (NonNilPointerNum v) pResult with
+      | LRet r_ => r_
+      | LCont pResult =>
+      if ((kind_eqb (rt_Kind (pc_cur_ty pResult)) KPtr) && (raw_is_null (JSONValue v))) then
+        res_map Some (pc_root_value env pResult)
+      else
+      match pc_unmarshal jdec pResult (JSONValue v) with
+      | Err e_ => Err e_ | Panic => Panic
+      | Ok pResult =>
+      res_map Some (pc_root_value env pResult)
+      end
+      end
+      end
+    else
+    if (negb (String.eqb (StructType v) ""%string)) then
+      match m_lookup reg (StructType v) with
+      | None => Err E_UNKNOWN_TYPE
+      | Some rt =>
+      let result := (resolvePointerNum (PointerNum v) rt) in
+      match cvft env result with
+      | Err e_ => Err e_ | Panic => Panic
+      | Ok dResult =>
+      match loop_list (fun '(k, internalValue) dResult =>
+          match self internalValue with
+          | Err e_ => LRet (Err e_) | Panic => LRet (Panic)
+          | Ok value =>
+          match rv_HasField env dResult k with
+          | Err e_ => LRet (Err e_) | Panic => LRet (Panic)
+          | Ok can_ =>
+          if negb can_ then
+            LRet (Err E_FIELD)
+          else
+          match value with
+          | None =>
+            match rt_FieldByName env rt k with
+            | None => LRet (Err E_FIELD)
+            | Some rft =>
+            match zero_v env (sf_Type rft) with
+            | Err e_ => LRet (Err e_) | Panic => LRet (Panic)
+            | Ok x_ =>
+            match rv_SetField env dResult k x_ with
+            | Err e_ => LRet (Err e_) | Panic => LRet (Panic)
+            | Ok dResult =>
+            LCont dResult
+            end
+            end
+            end
+          | Some value =>
+            match rv_SetField env dResult k value with
+            | Err e_ => LRet (Err e_) | Panic => LRet (Panic)
+            | Ok dResult =>
+            LCont dResult
+            end
+          end
+          end
+          end) (MapValues v) dResult with
+      | LRet r_ => r_
+      | LCont dResult =>
+      Ok (Some (cvft_result result dResult))
+      end
+      end
+      end
+    else
+    if (negb (String.eqb (MapKeyType v) ""%string)) then
+      match m_lookup reg (MapKeyType v) with
+      | None => Err E_UNKNOWN_TYPE
+      | Some rkt =>
+      let rkt := (resolvePointerNum (MapKeyPointerNum v) rkt) in
+      match m_lookup reg (MapValueType v) with
+      | None => Err E_UNKNOWN_TYPE
+      | Some rvt =>
+      let rvt := (resolvePointerNum (MapValuePointerNum v) rvt) in
+      match containerType J JK reg v (TMap rkt rvt) with
+      | Err e_ => Err e_ | Panic => Panic
+      | Ok mt =>
+      let result := (resolvePointerNum (PointerNum v) mt) in
+      match cvft env result with
+      | Err e_ => Err e_ | Panic => Panic
+      | Ok dResult =>
+      match loop_list (fun '(marshaledMapKey, internalValue) dResult =>
+          let prkv := (pc_new rkt) in
+          match pc_unmarshal_key kdec env prkv marshaledMapKey with
+          | Err e_ => LRet (Err e_) | Panic => LRet (Panic)
+          | Ok prkv =>
+          match self internalValue with
+          | Err e_ => LRet (Err e_) | Panic => LRet (Panic)
+          | Ok value =>
+          match value with
+          | None =>
+            match pc_here env prkv with
+            | Err e_ => LRet (Err e_) | Panic => LRet (Panic)
+            | Ok k_ =>
+            match zero_v env rvt with
+            | Err e_ => LRet (Err e_) | Panic => LRet (Panic)
+            | Ok x_ =>
+            match rv_SetMapIndex dResult k_ x_ with
+            | Err e_ => LRet (Err e_) | Panic => LRet (Panic)
+            | Ok dResult =>
+            LCont dResult
+            end
+            end
+            end
+          | Some value =>
+            match pc_here env prkv with
+            | Err e_ => LRet (Err e_) | Panic => LRet (Panic)
+            | Ok k_ =>
+            match rv_SetMapIndex dResult k_ value with
+            | Err e_ => LRet (Err e_) | Panic => LRet (Panic)
+            | Ok dResult =>
+            LCont dResult
+            end
+            end
+          end
+          end
+          end) (MapValues v) dResult with
+      | LRet r_ => r_
+      | LCont dResult =>
+      Ok (Some (cvft_result result dResult))
+      end
+      end
+      end
+      end
+      end
+    else
+    match m_lookup reg (SliceValueType v) with
+    | None => Err E_UNKNOWN_TYPE
+    | Some rvt =>
+    let rvt := (resolvePointerNum (SliceValuePointerNum v) rvt) in
+    if (IsArray v) then
+      match containerType J JK reg v (TArray (List.length (SliceValues v)) rvt) with
+      | Err e_ => Err e_ | Panic => Panic
+      | Ok at_ =>
+      let result := (resolvePointerNum (PointerNum v) at_) in
+      match cvft env result with
+      | Err e_ => Err e_ | Panic => Panic
+      | Ok dResult =>
+      match loop_list (fun '(i, internalValue) dResult =>
+          match self internalValue with
+          | Err e_ => LRet (Err e_) | Panic => LRet (Panic)
+          | Ok value =>
+          match value with
+          | None =>
+            LCont dResult
+          | Some value =>
+            match rv_SetIndex dResult i value with
+            | Err e_ => LRet (Err e_) | Panic => LRet (Panic)
+            | Ok dResult =>
+            LCont dResult
+            end
+          end
+          end) (indexed (SliceValues v)) dResult with
+      | LRet r_ => r_
+      | LCont dResult =>
+      Ok (Some (cvft_result result dResult))
+      end
+      end
+      end
+    else
+    match containerType J JK reg v (TSlice rvt) with
+    | Err e_ => Err e_ | Panic => Panic
+    | Ok st =>
+    let result := (resolvePointerNum (PointerNum v) st) in
+    match cvft env result with
+    | Err e_ => Err e_ | Panic => Panic
+    | Ok dResult =>
+    match loop_list (fun internalValue dResult =>
+        match self internalValue with
+        | Err e_ => LRet (Err e_) | Panic => LRet (Panic)
+        | Ok value =>
+        match value with
+        | None =>
+          match zero_v env rvt with
+          | Err e_ => LRet (Err e_) | Panic => LRet (Panic)
+          | Ok x_ =>
+          match rv_Append dResult x_ with
+          | Err e_ => LRet (Err e_) | Panic => LRet (Panic)
+          | Ok dResult =>
+          LCont dResult
+          end
+          end
+        | Some value =>
+          match rv_Append dResult value with
+          | Err e_ => LRet (Err e_) | Panic => LRet (Panic)
+          | Ok dResult =>
+          LCont dResult
+          end
+        end
+        end) (SliceValues v) dResult with
+    | LRet r_ => r_
+    | LCont dResult =>
+    Ok (Some (cvft_result result dResult))
+    end
+    end
+    end
+    end
+    end.
+
+(* init() of internal/serialization/serialization.go: key, Go type *)
+Definition init_serialization : list (string * string) :=
+  [("_eino_int"%string, "int"%string); ("_eino_int8"%string, "int8"%string); ("_eino_int16"%string, "int16"%string); ("_eino_int32"%string, "int32"%string); ("_eino_int64"%string, "int64"%string); ("_eino_uint"%string, "uint"%string); ("_eino_uint8"%string, "uint8"%string); ("_eino_uint16"%string, "uint16"%string); ("_eino_uint32"%string, "uint32"%string); ("_eino_uint64"%string, "uint64"%string); ("_eino_float32"%string, "float32"%string); ("_eino_float64"%string, "float64"%string); ("_eino_complex64"%string, "complex64"%string); ("_eino_complex128"%string, "complex128"%string); ("_eino_uintptr"%string, "uintptr"%string); ("_eino_bool"%string, "bool"%string); ("_eino_string"%string, "string"%string); ("_eino_any"%string, "any"%string); ("_eino_message"%string, "schema.Message"%string); ("_eino_document"%string, "schema.Document"%string); ("_eino_role_type"%string, "schema.RoleType"%string); ("_eino_chat_message_type"%string, "schema.ChatMessagePart"%string); ("_eino_tool_call"%string, "schema.ToolCall"%string); ("_eino_function_call"%string, "schema.FunctionCall"%string); ("_eino_response_meta"%string, "schema.ResponseMeta"%string); ("_eino_token_usage"%string, "schema.TokenUsage"%string); ("_eino_log_probs"%string, "schema.LogProbs"%string)].
+
+(* init() of compose/checkpoint.go, compose/dag.go: key, Go type *)
+Definition init_compose : list (string * string) :=
+  [("_eino_nil_chunk"%string, "nilChunk"%string); ("_eino_channel"%string, "channel"%string); ("_eino_checkpoint"%string, "checkpoint"%string); ("_eino_dag_channel"%string, "dagChannel"%string); ("_eino_pregel_channel"%string, "pregelChannel"%string); ("_eino_dependency_state"%string, "dependencyState"%string)].
+
+(* the record types compose registers: exported fields in declaration order (name, Go type) *)
+Definition compose_records : list (string * list (string * string)) :=
+  [("checkpoint"%string, [("Channels"%string, "map[string]channel"%string); ("Inputs"%string, "map[string]any"%string); ("State"%string, "any"%string); ("SkipPreHandler"%string, "map[string]bool"%string); ("SubGraphs"%string, "map[string]*checkpoint"%string)]);
+   ("dagChannel"%string, [("ControlPredecessors"%string, "map[string]dependencyState"%string); ("Values"%string, "map[string]any"%string); ("DataPredecessors"%string, "map[string]bool"%string); ("Skipped"%string, "bool"%string)]);
+   ("pregelChannel"%string, [("Values"%string, "map[string]any"%string)]);
+   ("nilChunk"%string, [])].
+
+Definition dependencyState_underlying : string := "uint8"%string.
